@@ -17,7 +17,7 @@ from contracts.c90_doc import BOUND, doc_inputs, lines_of, expected_lines, kern_
 GARBAGE = ['4d@x', '2a@x', '4d@', '4E·J', '4c ', '4r ', '4zz', 'zz', '4c&&&', '4cR', '4c4c%', '=1x%', '*clefQ9', 'c4@', '@', '4%', '8..', '%%', '4c##x#', 'Ñ', '4c\x7f']
 
 
-@contract(None, props=['C12'], bounded=BOUND + '; 1..3 cells replaced by malformed text (unknown characters, wrong order, truncated, valid + garbage)')
+@contract(None, props=['C12'], bounded=BOUND + '; 1..3 cells replaced by malformed text (unknown characters, wrong order, truncated, valid + garbage), in data records and beside spine operators / in interpretation records')
 class malformed_cells_isolated:
     """C12: exactly one error per malformed cell with its line number, every other token as without the damage, malformed cells
     exported verbatim in place; the outcome of a cell does not depend on the cells parsed before it."""
@@ -25,7 +25,14 @@ class malformed_cells_isolated:
         score, rng = doc_inputs(g, comments=False)
         slots = [(ri, c.col) for ri, r in enumerate(score.rows) if r.kind == 'data' for c in r.cells
                  if score.headers[c.spine] == '**kern' and c.kind != 'null']
+        # ... and the cells of kern spines that stand beside a spine operator of another spine or in an interpretation record (a
+        # malformed cell is a malformed cell in every kind of record)
+        beside = [(ri, c.col) for ri, r in enumerate(score.rows) if r.kind in ('ops', 'interp') for c in r.cells
+                  if score.headers[c.spine] == '**kern' and (c.text == '*' or c.kind in ('interp', 'nullinterp'))
+                  and not all(x.text == '*-' or x is c for x in r.cells)]
         picks = rng.sample(slots, min(len(slots), rng.choice([1, 1, 2, 3]))) if slots else []
+        if beside and rng.random() < 0.5:
+            picks = picks[:2] + [rng.choice(beside)]
         damage = {p: rng.choice(GARBAGE) for p in picks}
         if picks and rng.random() < 0.4:
             # the same malformed text in every kern cell of one line (and once more elsewhere): equal cells are still separate cells
